@@ -102,6 +102,7 @@ class Sem:
         self._caller_done = False
         self.subst_consts = True   # substitute module-level literal constants
         self.keep_names: Set[str] = set()   # locals that are never substituted (kept symbolic)
+        self.lenient_iter = False            # treat `for v in X` over a bare name/attribute as iteration over a sequence (v ↦ X[i])
         self.inline_helpers = True  # β-reduce calls of private single-expression helpers of the same module
         if caller is not None:
             self._caller_done = True
@@ -205,7 +206,7 @@ class Sem:
             return None
         # a plain `for v in X` is rewritten to X[i] only when X is visibly a sequence (an element of something, a literal list or
         # a comprehension) or the index is known (enumerate); iterating a bare name/attribute may be a dict → keep the variable
-        seq_like = isinstance(inner_it, (ast.Subscript, ast.List, ast.Tuple, ast.ListComp)) or idx_expr is not None and not (isinstance(idx_expr, ast.Name) and idx_expr.id.startswith("IT"))
+        seq_like = self.lenient_iter or isinstance(inner_it, (ast.Subscript, ast.List, ast.Tuple, ast.ListComp)) or idx_expr is not None and not (isinstance(idx_expr, ast.Name) and idx_expr.id.startswith("IT"))
         if seqs is None and seq_like and not isinstance(inner_it, ast.Call):
             if isinstance(inner_t, ast.Name) and inner_t.id == name:
                 return elem(inner_it, idx_expr)
@@ -437,8 +438,16 @@ class Sem:
     def element(self, e: ast.AST, at: int) -> Optional[ast.AST]:
         """Element (at an abstract position) of a list-valued expression: a comprehension, np.array(list), or a local list
         built by `x = []` + `x.append(v)` in a loop nest."""
+        saved = self.lenient_iter
+        self.lenient_iter = True
+        try:
+            return self._element(e, at)
+        finally:
+            self.lenient_iter = saved
+
+    def _element(self, e: ast.AST, at: int) -> Optional[ast.AST]:
         if isinstance(e, ast.Call) and call_name(e) in ("np.array", "np.asarray", "list", "tuple") and e.args:
-            return self.element(e.args[0], at)
+            return self._element(e.args[0], at)
         if isinstance(e, (ast.ListComp, ast.GeneratorExp)):
             return self.comp_element(e, at)
         if isinstance(e, ast.Name):
@@ -454,7 +463,7 @@ class Sem:
                             st = self.pm[st]
                         return self.simplify(self.resolve(apps[0].args[0], self.cfg.node(st)), at)
                     return None
-                return self.element(v, ds[0].node)
+                return self._element(v, ds[0].node)
         return None
 
     def alternatives(self, e: ast.AST, at: int, limit: int = 12) -> List[ast.AST]:
@@ -746,13 +755,30 @@ def inline_private_helpers(idx: Index, fi: FunctionInfo, depth: int = 2) -> Func
         params = list(g.params)
         if isinstance(call.func, ast.Attribute) and params and params[0] in ("self", "cls"):
             params = params[1:]
+        kwname = g.node.args.kwarg.arg if g.node.args.kwarg is not None else None
+        if g.node.args.vararg is not None:
+            return None
+        if kwname is not None:
+            params = [p_ for p_ in params if p_ != kwname]
         if len(call.args) > len(params):
             return None
         bind: Dict[str, ast.AST] = {}
+        extra_kw: List[ast.keyword] = []
         for p_, a in zip(params, call.args):
             bind[p_] = a
         for k in call.keywords:
-            bind[k.arg] = k.value
+            if k.arg in params:
+                bind[k.arg] = k.value
+            elif kwname is not None:
+                extra_kw.append(k)
+            else:
+                return None
+        if kwname is not None:
+            # **kwargs may only be forwarded (`f(..., **kwargs)`) in the helper body
+            uses = [n for s in g.node.body for n in ast.walk(s) if isinstance(n, ast.Name) and n.id == kwname]
+            fwd = [k for s in g.node.body for c_ in ast.walk(s) if isinstance(c_, ast.Call) for k in c_.keywords if k.arg is None and isinstance(k.value, ast.Name) and k.value.id == kwname]
+            if len(uses) != len(fwd):
+                return None
         a_ = g.node.args
         pos = [x.arg for x in a_.posonlyargs + a_.args]
         for i_, d_ in enumerate(a_.defaults):
@@ -778,10 +804,22 @@ def inline_private_helpers(idx: Index, fi: FunctionInfo, depth: int = 2) -> Func
                 pre.append(ast.copy_location(ast.Assign(targets=[ast.Name(id=p_ + tag, ctx=ast.Store())], value=copy.deepcopy(v), lineno=call.lineno), call))
         rn = _Rename(names, subst)
         new = pre + [rn.visit(copy.deepcopy(s)) for s in body]
+        retv2 = rn.visit(copy.deepcopy(retv)) if retv is not None else None
+        if kwname is not None:
+            for root in new + ([retv2] if retv2 is not None else []):
+                for c_ in ast.walk(root):
+                    if isinstance(c_, ast.Call):
+                        nk = []
+                        for k in c_.keywords:
+                            if k.arg is None and isinstance(k.value, ast.Name) and k.value.id in (kwname, names.get(kwname, kwname)):
+                                nk += [ast.keyword(arg=e.arg, value=copy.deepcopy(e.value)) for e in extra_kw]
+                            else:
+                                nk.append(k)
+                        c_.keywords = nk
         if tail_form:
             new = pre + _replace_tail_returns(new[len(pre):], make_tail)
         else:
-            tail = make_tail(rn.visit(copy.deepcopy(retv)) if retv is not None else ast.Constant(value=None))
+            tail = make_tail(retv2 if retv2 is not None else ast.Constant(value=None))
             if tail is not None:
                 new.append(tail)
         for s in new:
